@@ -252,6 +252,8 @@ func (p *ProjectRunner) initProcessLogs() {
 }
 
 func (p *ProjectRunner) initProcessLog(name string) {
+	p.logsMutex.Lock()
+	defer p.logsMutex.Unlock()
 	p.processLogs[name] = pclog.NewLogBuffer(p.project.LogLength)
 }
 
@@ -293,7 +295,7 @@ func (p *ProjectRunner) GetProcessesState() (*types.ProcessesState, error) {
 	states := &types.ProcessesState{
 		States: make([]types.ProcessState, 0),
 	}
-	for name := range p.project.Processes {
+	for name := range p.getProcessConfigs() {
 		state, err := p.GetProcessState(name)
 		if err != nil {
 			return nil, err
@@ -305,13 +307,39 @@ func (p *ProjectRunner) GetProcessesState() (*types.ProcessesState, error) {
 }
 
 func (p *ProjectRunner) getProcessesStateData(filter filterFn) error {
-	for name := range p.project.Processes {
+	for name := range p.getProcessConfigs() {
 		err := p.getProcessStateData(name, filter)
 		if err != nil {
 			return err
 		}
 	}
 	return nil
+}
+
+// getProcessConfig returns a copy of the configuration of a process. The configuration map is
+// modified by scale and update requests while state queries and other requests read it.
+func (p *ProjectRunner) getProcessConfig(name string) (types.ProcessConfig, bool) {
+	p.procConfMutex.Lock()
+	defer p.procConfMutex.Unlock()
+	proc, ok := p.project.Processes[name]
+	return proc, ok
+}
+
+// getProcessConfigs returns a snapshot of the configured processes
+func (p *ProjectRunner) getProcessConfigs() types.Processes {
+	p.procConfMutex.Lock()
+	defer p.procConfMutex.Unlock()
+	procs := make(types.Processes, len(p.project.Processes))
+	for name, proc := range p.project.Processes {
+		procs[name] = proc
+	}
+	return procs
+}
+
+func (p *ProjectRunner) setProcessConfig(name string, proc types.ProcessConfig) {
+	p.procConfMutex.Lock()
+	defer p.procConfMutex.Unlock()
+	p.project.Processes[name] = proc
 }
 
 func (p *ProjectRunner) addRunningProcess(process *Process) {
@@ -371,7 +399,7 @@ func (p *ProjectRunner) StartProcess(name string) error {
 		return fmt.Errorf("process %s is already running", name)
 	}
 	verifGateName(name, "api.start.checked")
-	if processConfig, ok := p.project.Processes[name]; ok {
+	if processConfig, ok := p.getProcessConfig(name); ok {
 		p.runProcess(&processConfig)
 	} else {
 		return fmt.Errorf("no such process: %s", name)
@@ -384,7 +412,7 @@ func (p *ProjectRunner) StopProcess(name string) error {
 	log.Info().Msgf("Stopping %s", name)
 	proc := p.getRunningProcess(name)
 	if proc == nil {
-		if _, ok := p.project.Processes[name]; !ok {
+		if _, ok := p.getProcessConfig(name); !ok {
 			log.Error().Msgf("Process %s does not exist", name)
 			return fmt.Errorf("process %s does not exist", name)
 		}
@@ -435,7 +463,7 @@ func (p *ProjectRunner) RestartProcess(name string) error {
 	}
 	verifGateName(name, "api.restart.slept")
 
-	if processConfig, ok := p.project.Processes[name]; ok {
+	if processConfig, ok := p.getProcessConfig(name); ok {
 		p.runProcess(&processConfig)
 	} else {
 		return fmt.Errorf("no such process: %s", name)
@@ -444,9 +472,7 @@ func (p *ProjectRunner) RestartProcess(name string) error {
 }
 
 func (p *ProjectRunner) GetProcessInfo(name string) (*types.ProcessConfig, error) {
-	p.runProcMutex.Lock()
-	defer p.runProcMutex.Unlock()
-	if processConfig, ok := p.project.Processes[name]; ok {
+	if processConfig, ok := p.getProcessConfig(name); ok {
 		return &processConfig, nil
 	} else {
 		return nil, fmt.Errorf("no such process: %s", name)
@@ -637,7 +663,10 @@ func (p *ProjectRunner) GetHostName() (string, error) {
 }
 
 func (p *ProjectRunner) getProcessLog(name string) (*pclog.ProcessLogBuffer, error) {
-	if procLogs, ok := p.processLogs[name]; ok {
+	p.logsMutex.Lock()
+	procLogs, ok := p.processLogs[name]
+	p.logsMutex.Unlock()
+	if ok {
 		return procLogs, nil
 	}
 	log.Error().Msgf("process %s doesn't exist", name)
@@ -685,7 +714,7 @@ func (p *ProjectRunner) ScaleProcess(name string, scale int) error {
 		log.Err(err).Msg("scale failed")
 		return err
 	}
-	if processConfig, ok := p.project.Processes[name]; ok {
+	if processConfig, ok := p.getProcessConfig(name); ok {
 		origScale := p.getCurrentReplicaCount(processConfig.Name)
 		scaleDelta := scale - origScale
 		if scaleDelta < 0 {
@@ -707,7 +736,7 @@ func (p *ProjectRunner) ScaleProcess(name string, scale int) error {
 
 func (p *ProjectRunner) getCurrentReplicaCount(name string) int {
 	counter := 0
-	for _, proc := range p.project.Processes {
+	for _, proc := range p.getProcessConfigs() {
 		if proc.Name == name {
 			counter++
 		}
@@ -762,10 +791,10 @@ func (p *ProjectRunner) scaleDownProcess(name string, scale int) {
 }
 
 func (p *ProjectRunner) updateReplicaCount(name string, scale int) {
-	for _, proc := range p.project.Processes {
+	for _, proc := range p.getProcessConfigs() {
 		if proc.Name == name {
 			proc.Replicas = scale
-			p.project.Processes[proc.ReplicaName] = proc
+			p.setProcessConfig(proc.ReplicaName, proc)
 			if proc.ReplicaName != proc.CalculateReplicaName() {
 				p.renameProcess(proc.ReplicaName, proc.CalculateReplicaName())
 			}
@@ -782,7 +811,9 @@ func (p *ProjectRunner) renameProcess(name string, newName string) {
 	}
 	logs := p.removeProcessLogs(name)
 	if logs != nil {
+		p.logsMutex.Lock()
 		p.processLogs[newName] = logs
+		p.logsMutex.Unlock()
 	}
 	state, err := p.GetProcessState(name)
 	if err == nil {
@@ -792,6 +823,8 @@ func (p *ProjectRunner) renameProcess(name string, newName string) {
 		state.Name = newName
 		p.processStates[newName] = state
 	}
+	p.procConfMutex.Lock()
+	defer p.procConfMutex.Unlock()
 	procConf, ok := p.project.Processes[name]
 	if ok {
 		delete(p.project.Processes, name)
@@ -836,7 +869,7 @@ func (p *ProjectRunner) addProcessAndRun(proc types.ProcessConfig) {
 	p.statesMutex.Lock()
 	p.processStates[proc.ReplicaName] = types.NewProcessState(&proc)
 	p.statesMutex.Unlock()
-	p.project.Processes[proc.ReplicaName] = proc
+	p.setProcessConfig(proc.ReplicaName, proc)
 	p.initProcessLog(proc.ReplicaName)
 	if !proc.IsDeferred() {
 		p.runProcess(&proc)
@@ -905,7 +938,7 @@ func (p *ProjectRunner) GetDependenciesOrderNames() ([]string, error) {
 
 func (p *ProjectRunner) GetProjectState(checkMem bool) (*types.ProjectState, error) {
 	runningProcesses := 0
-	for name := range p.project.Processes {
+	for name := range p.getProcessConfigs() {
 		state, err := p.GetProcessState(name)
 		if err != nil {
 			return nil, err
@@ -987,7 +1020,7 @@ func (p *ProjectRunner) UpdateProject(project *types.Project) (map[string]string
 	delProcs := make(map[string]types.ProcessConfig)
 	updatedProcs := make(map[string]types.ProcessConfig)
 	for name, newProc := range project.Processes {
-		if currentProc, ok := p.project.Processes[name]; ok {
+		if currentProc, ok := p.getProcessConfig(name); ok {
 			equal := currentProc.Compare(&newProc)
 			if equal {
 				log.Debug().Msgf("Process %s is up to date", name)
@@ -1000,7 +1033,7 @@ func (p *ProjectRunner) UpdateProject(project *types.Project) (map[string]string
 			newProcs[name] = newProc
 		}
 	}
-	for name, currentProc := range p.project.Processes {
+	for name, currentProc := range p.getProcessConfigs() {
 		if _, ok := project.Processes[name]; !ok {
 			log.Debug().Msgf("Process %s is deleted", name)
 			delProcs[name] = currentProc
@@ -1063,7 +1096,7 @@ func (p *ProjectRunner) UpdateProcess(updated *types.ProcessConfig) error {
 	validateProbes(updated.LivenessProbe)
 	validateProbes(updated.ReadinessProbe)
 	updated.AssignProcessExecutableAndArgs(p.project.ShellConfig, p.project.ShellConfig.ElevatedShellArg)
-	if currentProc, ok := p.project.Processes[updated.ReplicaName]; ok {
+	if currentProc, ok := p.getProcessConfig(updated.ReplicaName); ok {
 		equal := currentProc.Compare(updated)
 		if equal {
 			log.Debug().Msgf("Process %s is up to date", updated.Name)
